@@ -221,7 +221,11 @@ func (g *Gen) newFnVC(fn *ssa.Function, c *Contract, key string) *FnVC {
 // script assembles the SMT-LIB text shared by all obligations of the function.
 func (f *FnVC) scriptHead() string { return f.scriptHeadOpt(true) }
 
-func (f *FnVC) scriptHeadOpt(withQ bool) string {
+func (f *FnVC) scriptHeadOpt(withQ bool) string { return f.scriptHeadSel(withQ, nil) }
+
+// scriptHeadSel: with keep != nil only facts generated in the given blocks (or in no block) are included.
+// Any subset of the facts is a sound set of assumptions; the slice keeps queries small.
+func (f *FnVC) scriptHeadSel(withQ bool, keep map[int]bool) string {
 	var sb strings.Builder
 	sb.WriteString("(set-option :produce-models true)\n(set-logic ALL)\n")
 	sb.WriteString(preludeText())
@@ -240,9 +244,12 @@ func (f *FnVC) scriptHeadOpt(withQ bool) string {
 	for _, d := range f.specDefs {
 		sb.WriteString(d + "\n")
 	}
-	for _, a := range f.facts {
+	for i, a := range f.facts {
 		if !withQ && (strings.Contains(a, "(forall ") || strings.Contains(a, "(exists ")) {
 			continue // cover checks and model search run on the quantifier-free part of the facts
+		}
+		if keep != nil && i < len(f.factBlk) && f.factBlk[i] >= 0 && !keep[f.factBlk[i]] {
+			continue
 		}
 		sb.WriteString("(assert " + a + ")\n")
 	}
@@ -260,6 +267,10 @@ func (f *FnVC) scriptHeadOpt(withQ bool) string {
 func (f *FnVC) scriptFor(o *Obl, head string) string { return f.scriptForCase(o, head, "") }
 
 func (f *FnVC) scriptForCase(o *Obl, head string, extra string) string {
+	return f.scriptForSel(o, head, extra, nil)
+}
+
+func (f *FnVC) scriptForSel(o *Obl, head string, extra string, keep map[int]bool) string {
 	var sb strings.Builder
 	sb.WriteString(head)
 	if extra != "" {
@@ -271,6 +282,9 @@ func (f *FnVC) scriptForCase(o *Obl, head string, extra string) string {
 				break
 			}
 			if p.Cover || !p.Assumed {
+				continue
+			}
+			if keep != nil && p.Blk >= 0 && !keep[p.Blk] {
 				continue
 			}
 			sb.WriteString("(assert " + p.Cond + ")\n")
